@@ -150,6 +150,17 @@ def guards_of(fn, target, pm=None):
                         out.append((u(prev.test), True))
                     elif isinstance(prev, ast.Assert):
                         out.append((u(prev.test), True))
+                    elif isinstance(prev, ast.Try) and prev.handlers and terminates(prev.body + prev.orelse) and not prev.finalbody:
+                        # control continues past the try only through a handler that ran to completion:
+                        # conditions established by *every* handler's leading early exits hold here
+                        common = None
+                        for h in prev.handlers:
+                            hs = set()
+                            for x in h.body:
+                                if isinstance(x, ast.If) and terminates(x.body) and not x.orelse:
+                                    hs.add((u(x.test), False))
+                            common = hs if common is None else (common & hs)
+                        out.extend(sorted(common or ()))
                 if isinstance(par, (ast.If, ast.While)):
                     if fld == 'body':
                         out.append((u(par.test), True))
